@@ -35,7 +35,10 @@ HalfOpenCounts == 0..(Threshold + 2)
 Cut(t, k) == <<"cut", t.spi, t.nonce, t.addr, k>>
 CutLengths == {0, 1, 16, 33}
 CutCases == {[h |-> h, req |-> [t |-> t, cookies |-> <<Cut(t, k)>>]] : h \in HalfOpenCounts, t \in Tuple, k \in CutLengths}
-Cases == {[h |-> h, req |-> r] : h \in HalfOpenCounts, r \in Request} \cup CutCases
+\* how the h half-open IKE_SAs came about does not matter - they are counted as IKE_SAs: requests of distinct initiators, one request replayed h times,
+\* or one initiator SPI with a fresh nonce and KE value each time
+Fills == {"distinct", "replayed", "samespi"}
+Cases == {[h |-> c.h, req |-> c.req, fill |-> f] : c \in {[h |-> h, req |-> r] : h \in HalfOpenCounts, r \in Request} \cup CutCases, f \in Fills}
 
 \* ------------------------------------------------------------------------------------------- the property, on the operator
 CookieFirst == \A c \in Cases : LET o == Respond(c.h, c.req) IN
@@ -58,7 +61,7 @@ ASSUME RetryAccepted
 \* which verdicts the property fixes: a right cookie in second position behind a wrong one is not constrained by the statement
 Strict(c) == ~(Armed(c.h) /\ Len(c.req.cookies) = 2 /\ c.req.cookies[1] # CookieFor(c.req.t) /\ c.req.cookies[2] = CookieFor(c.req.t))
 
-Vectors == {[h |-> c.h, t |-> c.req.t, cookies |-> c.req.cookies, out |-> Respond(c.h, c.req), strict |-> Strict(c)] : c \in Cases}
+Vectors == {[h |-> c.h, t |-> c.req.t, cookies |-> c.req.cookies, fill |-> c.fill, out |-> Respond(c.h, c.req), strict |-> Strict(c)] : c \in Cases}
 ASSUME OutFile = "" \/ JsonSerialize(OutFile, [n |-> Cardinality(Vectors), threshold |-> Threshold, vectors |-> Vectors])
 ASSUME PrintT(<<"CASES", Cardinality(Cases)>>)
 
